@@ -415,18 +415,18 @@ def _run_arc(ctx, case):
         a_ok = False
         ctx.violation(f"third-point-not-finite:{tag}", f"{where}: third_point = {tp}")
     elif kind == "arc":
-        if geom.dist(tp, case["point"]) > 1e-9 * R:
+        if not (geom.dist(tp, case["point"]) <= 1e-9 * R):
             a_ok = False
             ctx.violation(f"third-point-is-not-the-given-point:{tag}", f"{where}: third_point = {_vec(tp)}")
     else:
         err = geom.dist(tp, mid)
-        if err > tol_p:
+        if not (err <= tol_p):
             a_ok = False
             nh = geom.unit(n)
             radial = abs(geom.dist(tp, c) - R)
             plane = abs(float(np.dot(tp - c, nh)))
             anti = 2 * c - mid
-            if radial > tol_p or plane > tol_p:
+            if not (radial <= tol_p and plane <= tol_p):
                 clause = "third-point-off-circle"
             elif geom.dist(tp, anti) <= tol_p:
                 clause = "third-point-on-complementary-arc"
@@ -496,7 +496,7 @@ def _run_arc(ctx, case):
         return
     if a_ok and not dropped and valid:
         ctx.count(f"judged:length:{kind}")
-        if abs(length - want_len) > 1e-7 * want_len:
+        if not (abs(length - want_len) <= 1e-7 * want_len):
             comp = R * (TWO_PI - abs(ang))
             chord = geom.dist(p1, p2)
             if abs(length - comp) <= 1e-7 * comp:
@@ -527,7 +527,7 @@ def _run_arc(ctx, case):
             ctx.violation(f"third-point-not-updated-after-vertex-move:{kind}",
                           f"{where}: both ends rotated by {delta} about the circle's axis: third_point {tp2.tolist()}, expected {mid2.tolist()}")
             return
-        if abs(len2 - want_len) > 1e-7 * want_len:
+        if not (abs(len2 - want_len) <= 1e-7 * want_len):
             ctx.violation(f"length-not-updated-after-vertex-move:{kind}", f"{where}: length {len2!r} after the move, R*|angle| = {want_len!r}")
     elif kind in ("origin", "angle") and a_ok and valid and int(R * 1e6) % 3 == 1:
         _history_item_moved(ctx, kind, where, edge, R, c, p1, p2, mid, want_len)
@@ -551,7 +551,7 @@ def _history_item_moved(ctx, kind, where, edge, R, c, p1, p2, mid, want_len):
         T, s, what = (lambda x: org + (np.asarray(x, dtype=float) - org) * 1.7), 1.7, "scale"
     ctx.count("judged:after-transforming-the-edge-item")
     ends = [np.asarray(edge.vertex_1.position, dtype=float), np.asarray(edge.vertex_2.position, dtype=float)]
-    if geom.dist(ends[0], T(p1)) > 1e-9 * R * s or geom.dist(ends[1], T(p2)) > 1e-9 * R * s:
+    if not (geom.dist(ends[0], T(p1)) <= 1e-9 * R * s and geom.dist(ends[1], T(p2)) <= 1e-9 * R * s):
         ctx.violation(f"edge-item-{what}:end-points-did-not-follow:{kind}", f"{where}: {ends} vs {[T(p1).tolist(), T(p2).tolist()]}")
         return
     tp2 = np.asarray(edge.third_point.position, dtype=float)
@@ -560,7 +560,7 @@ def _history_item_moved(ctx, kind, where, edge, R, c, p1, p2, mid, want_len):
         ctx.violation(f"edge-item-{what}:third-point-off-the-moved-circle:{kind}",
                       f"{where}: after edge.{what}(...) third_point {tp2.tolist()}, expected {T(mid).tolist()}")
         return
-    if abs(len2 - want_len * s) > 1e-7 * want_len * s:
+    if not (abs(len2 - want_len * s) <= 1e-7 * want_len * s):
         ctx.violation(f"edge-item-{what}:length:{kind}", f"{where}: after edge.{what}(...) length {len2!r}, R*|angle| = {want_len * s!r}")
 
 
@@ -571,7 +571,7 @@ def _judge_consistency(ctx, label, mech, where, p1, tp, p2, length):
     except ValueError:
         return
     ctx.count(f"judged:three-point-consistency:{label}")
-    if abs(length - ref) > 1e-6 * ref:
+    if not (abs(length - ref) <= 1e-6 * ref):
         centre, r, _, angle = geom.arc_through(p1, tp, p2)
         clause = "three-point-length-of-other-side" if abs(length - r * (TWO_PI - angle)) <= 1e-6 * r * TWO_PI else \
             "three-point-length-wrong"
